@@ -55,3 +55,7 @@ pub assume_specification<T, A: std::alloc::Allocator>[ Vec::<T, A>::capacity ](v
 pub assume_specification<'a>[ <Chars<'a> as Iterator>::count ](c: Chars<'a>) -> (r: usize)
     ensures r == c.remaining().len();
 //@trusted assume_specification <Chars as Iterator>::count == number of remaining scalar values
+/// str::get is the generic wrapper around SliceIndex<str>::get, which vstd specifies
+pub assume_specification<I: SliceIndex<str>>[ str::get::<I> ](s: &str, i: I) -> (r: Option<&<I as SliceIndex<str>>::Output>)
+    ensures match r { None => !i.in_bounds(s), Some(x) => i.in_bounds(s) && i.index_postcondition(s, x) };
+//@trusted assume_specification str::get(i) == SliceIndex::get(i, s) (std definition)
